@@ -19,6 +19,7 @@ RULE = (
     "from an EARLIER screen object (branching), with every earlier object re-checked against its own model after each step; "
     "per case also the constructor rules (mixed plate rejected, observations without mask, neither, mask without observations) and set_observed on a drawn "
     "selection. Non-trivial = history with >=2 reveals of which one touches an already observed or unknown id. distinct = distinct case JSON."
+    ' Also: histories during which 140 .. 1100 other screens are built and kept alive; one history in sixty has 40..70 operations.'
 )
 ASSUMPTIONS = [
     "a reveal is expected to refuse exactly when the stored values of the selected rows are all zero (incl. the empty selection) or contain NaN - the two guards the statement names",
@@ -28,7 +29,7 @@ ASSUMPTIONS = [
 
 def budgets(tier):
     if tier == "quick":
-        return {"examples": 500, "max_s": 80, "shrink_s": 20, "shards": 1}
+        return {"examples": 500, "max_s": 110, "shrink_s": 20, "shards": 1}
     return {"examples": 2000, "max_s": 700, "shrink_s": 90, "shards": 16}
 
 
@@ -55,7 +56,7 @@ def _case(draw):
                 r["o"] = 0.0
     ops = []
     n_pl = len({r["p"] for r in sc["rows"]})
-    for _ in range(draw(st.integers(3, 10))):
+    for _ in range(draw(st.one_of(*([st.integers(3, 10)] * 59 + [st.integers(40, 70)])))):  # one history in sixty is long
         op = draw(st.sampled_from(OPS))
         # indices into the screen's plates; now and then an unknown id (-1, 99) or an empty list
         k = draw(st.sampled_from([0, 1, 1, 1, 2, 2, 3])) if op == "reveal" else draw(st.integers(1, 3))
@@ -84,6 +85,16 @@ def _case(draw):
 
 def strategy(tier):
     return _case()
+
+
+def exhaustive(tier):
+    # a screen that stays in use while hundreds of other screens (other plate layouts) are built, loaded and kept alive in the same
+    # process - an analysis session, a server - and is then masked / revealed again
+    for crowd, seed in [(300, 1), (140, 2)] + ([(1100, 3), (520, 4), (257, 5)] if tier != "quick" else []):
+        rows = [{"s": "s%d" % (i % 3), "p": "plate%d" % (i % 5), "t": ["t%d" % (i % 4), "t%d" % ((i + 1 + i // 4 % 3) % 4)], "d": [1.0, 2.0], "o": 0.1 + 0.05 * i} for i in range(15)]
+        sc = {"arity": 2, "control": "ctl", "rows": rows, "observed": ["plate0"], "layout": None}
+        ops = [{"op": "reveal", "ids": [1]}, {"op": "mask", "ids": [1]}, {"op": "reveal", "ids": [2, 3]}, {"op": "saveload", "ids": [2]}, {"op": "reveal", "ids": [4]}, {"op": "unmask", "ids": [1]}, {"op": "mask", "ids": [3]}, {"op": "reveal", "ids": [0, 4]}, {"op": "cli_meta", "ids": [1]}, {"op": "reveal", "ids": [3]}]
+        yield {"screen": sc, "ops": ops, "same_path": False, "numeric_plate_names": False, "set_sel": [i % 2 == 0 for i in range(15)], "set_vals": [0.5] * 15, "crowd": crowd, "seed": seed}
 
 
 def _integer_mask_counts(sc):
@@ -148,6 +159,8 @@ def _check_state(cur, sc, frozen, model, tag):
     mask = np.asarray(cur.observation_mask)
     pn = [str(x) for x in cur.plate_names]
     require(pn == frozen["plates"], tag + ".plate_assignment", lambda: "plate names changed: %r -> %r" % (frozen["plates"], pn))
+    pid = [int(x) for x in cur.plate_ids]
+    require(len(set(zip(pn, pid))) == len(set(pn)) == len(set(pid)), tag + ".plate_ids_follow_names", lambda: "plate ids %r do not group the experiments the way the plate names %r do" % (pid, pn))
     for p in sorted(set(pn)):
         m = [bool(mask[i]) for i in range(n) if pn[i] == p]
         require(all(x == m[0] for x in m), tag + ".atomic", lambda: "plate %r is partly observed: %r" % (p, m))
@@ -188,9 +201,20 @@ def check_case(case):
         # its output over its input), otherwise each save gets a fresh path
         return shared or tmp.fresh(name)
 
+    crowd = []
+
+    def grow_crowd(k, salt):
+        # other screens with other plate layouts, built now and kept alive until the case ends
+        for j in range(k):
+            q = len(crowd) + salt
+            rows_ = [dict(r_, p="other%d_%d" % (q % 7, (i_ * (1 + q % 3) + q) % (2 + q % 6))) for i_, r_ in enumerate(rows)][: max(2, n - q % 4)]
+            crowd.append(S.build_screen(dict(sc, rows=rows_, observed=[])))
+
     try:
         for step, op in enumerate(case["ops"]):
             kind = op["op"]
+            if case.get("crowd"):
+                grow_crowd(case["crowd"] // len(case["ops"]) + 1, step)
             if versions[-1][0] is not cur or versions[-1][1] != model:
                 versions.append((cur, dict(model)))
             if len(versions) >= 2 and op["ids"] and (op["ids"][0] + step) % 4 == 0:
